@@ -51,3 +51,12 @@ Print Assumptions tie_getters.
 Print Assumptions tie_pgn.
 Print Assumptions tie_setters.
 Print Assumptions tie_compound.
+
+Theorem tie_destination : forall id ext, gen_j1939_destination ext id = j1939_destination (id, ext).
+Proof.
+  intros. unfold gen_j1939_destination, gen_j1939_pdu_format, gen_j1939_ps, gen_j1939_pf, j1939_destination.
+  destruct ext; cbn [negb fst snd]; [|reflexivity].
+  destruct (Z.land (Z.shiftr id 16) 255 <? 240) eqn:H;
+    [change (1 =? 1) with true | change (2 =? 1) with false]; cbv beta iota zeta; reflexivity.
+Qed.
+Print Assumptions tie_destination.
